@@ -163,3 +163,53 @@ package datastore
 //@ func Data.IsMutationRequest
 //@   prop C02
 //@   ensures result == (tolower(action) == "post" || tolower(action) == "put" || tolower(action) == "delete")
+
+// ---- repo-level operations (C07): refused requests change nothing; new versions hang off a
+// committed parent; branch names stay one chain; (C04) write order the start-up loader tolerates ----
+
+//@ func repoManager.newRepo
+//@   prop C07 C04
+//@   safety_off
+//@   requires m != nil
+//@   modifies *
+//@   ghost cachePersisted bool = false
+//@   ghostset at "if err := r.save(); err != nil {": cachePersisted = cachePersisted
+//@   ghostset at "m.repoMutex.Lock()": cachePersisted = true
+//@   assert at "if err := r.save(); err != nil {": cachePersisted
+//@   ensures assign != nil && old(has(m.repos, *assign)) ==> result0 == nil && m.versionID == old(m.versionID) && m.repoID == old(m.repoID)
+//@   ensures assign != nil && old(has(m.repos, *assign)) ==> (forall v dvid.VersionID :: has(m.versionToUUID, v) == old(has(m.versionToUUID, v))) && (forall u dvid.UUID :: has(m.uuidToVersion, u) == old(has(m.uuidToVersion, u)) && m.uuidToVersion[u] == old(m.uuidToVersion[u]))
+
+//@ func repoManager.newVersion
+//@   prop C07
+//@   safety_off
+//@   requires m != nil
+//@   modifies *
+//@   invariant loop 1: forall j int :: {node.children[j]} 0 <= j && j <= rangeindex ==> has(r.dag.nodes, node.children[j]) && r.dag.nodes[node.children[j]].branch != branchname
+//@   invariant loop 2: forall u dvid.VersionID :: visited2[u] ==> r.dag.nodes[u].branch != branchname
+//@   assert at "childUUID, childV, err := m.newUUID(assign)": node.locked
+//@   assert at "childUUID, childV, err := m.newUUID(assign)": branchname != node.branch ==> (forall u dvid.VersionID :: has(r.dag.nodes, u) ==> r.dag.nodes[u].branch != branchname)
+//@   assert at "childUUID, childV, err := m.newUUID(assign)": branchname == node.branch ==> (forall j int :: {node.children[j]} 0 <= j && j < len(node.children) ==> r.dag.nodes[node.children[j]].branch != branchname)
+
+//@ func repoManager.merge
+//@   prop C07
+//@   safety_off
+//@   requires m != nil
+//@   modifies *
+//@   invariant loop 1: forall j int :: {parents[j]} 0 <= j && j <= rangeindex ==> has(m.uuidToVersion, parents[j]) && has(r.dag.nodes, m.uuidToVersion[parents[j]]) && r.dag.nodes[m.uuidToVersion[parents[j]]].locked
+//@   assert at "childUUID, childV, err := m.newUUID(nil)": mt == MergeConflictFree
+//@   assert at "childUUID, childV, err := m.newUUID(nil)": forall j int :: {parents[j]} 0 <= j && j < len(parents) ==> has(m.uuidToVersion, parents[j]) && has(r.dag.nodes, m.uuidToVersion[parents[j]]) && r.dag.nodes[m.uuidToVersion[parents[j]]].locked
+
+// commit: a node already committed is refused; a successful commit has written the repo (with the
+// locked flag) to the metadata store (C03: the flag survives a restart).
+//@ func repoManager.commit
+//@   prop C07 C03
+//@   safety_off
+//@   requires m != nil
+//@   modifies *
+//@   ghost saved bool = false
+//@   ghost wasLocked bool = false
+//@   ghostset at "if node.locked {": wasLocked = node.locked
+//@   ghost setLocked bool = false
+//@   ghostset at "if len(note) != 0 {": setLocked = node.locked
+//@   ghostset at "return r.save()": saved = true
+//@   ensures result == nil ==> saved && !wasLocked && setLocked
